@@ -319,6 +319,8 @@ class Harness:
         if v.status == "refuted" and v.model is not None:
             for name, c in ctx.inputs.items():
                 inputs[name] = solve.model_value(v.model, c)
+        elif v.status == "unknown":
+            inputs = {name: None for name in ctx.inputs}
         self.sink.append(
             Instance(label, dict(ctx.cases), v.status, v.backend, v.seconds, inputs, detail or (v.reason if v.status == "unknown" else ""))
         )
@@ -333,6 +335,8 @@ class Harness:
         if v.status == "refuted" and v.model is not None:
             for name, c in self.ctx.inputs.items():
                 inputs[name] = solve.model_value(v.model, c)
+        elif v.status == "unknown":
+            inputs = {name: None for name in self.ctx.inputs}
         self.sink.append(Instance(label, dict(self.ctx.cases), v.status, v.backend, v.seconds, inputs, detail or (v.reason if v.status == "unknown" else "")))
         return v.status == "proved"
 
@@ -447,6 +451,9 @@ class ObligationReport:
     seconds: float = 0.0
 
 
+MAX_UNKNOWN_PER_JOB = 4
+
+
 def explore(ob_fn, name, prop, preset_cases=None, max_paths=20000) -> ObligationReport:
     t0 = time.time()
     rep = ObligationReport(name, prop, [])
@@ -476,6 +483,9 @@ def explore(ob_fn, name, prop, preset_cases=None, max_paths=20000) -> Obligation
             tb = traceback.format_exc(limit=6)
             rep.errors.append(f"uncaught {type(e).__name__} on cases={ctx.cases}: {e}\n{tb}")
         work.extend(ctx.new_work)
+        if sum(1 for i in rep.instances if i.status == "unknown") > MAX_UNKNOWN_PER_JOB:
+            rep.errors.append(f"more than {MAX_UNKNOWN_PER_JOB} undecided obligations in this job: exploration stopped (undecided, not a verdict)")
+            break
         for n in ctx.notes:
             if n not in rep.notes:
                 rep.notes.append(n)
@@ -505,3 +515,28 @@ def replay_native(ob_fn, inst: Instance):
         if r.label == inst.label and r.status == "replay-fail":
             return True, r.detail
     return False, "obligation holds natively on this model (float gap or spurious model)"
+
+
+def falsify_natively(ob_fn, inst: Instance, seed=0, tries=60):
+    """An obligation the solvers left undecided: look for a failing input by running the harness natively on sampled
+    inputs (same case choices).  A hit is a violation confirmed on the real code; a miss leaves it undecided."""
+    import random
+
+    rnd = random.Random(f"{seed}:{inst.label}:{sorted(inst.cases.items(), key=str)}")
+    names = list(inst.inputs)
+    for t in range(tries):
+        vals = {}
+        for n in names:
+            kind = rnd.random()
+            if kind < 0.35:
+                v = float(rnd.randint(-9, 9))
+            elif kind < 0.7:
+                v = rnd.choice([-1, 1]) * rnd.choice([0.25, 0.5, 1.5, 2.75, 7.0, 12.5, 33.0, 100.0, 181.0, 275.0, 359.5, 400.0])
+            else:
+                v = rnd.uniform(-400, 400)
+            vals[n] = v
+        probe = Instance(inst.label, inst.cases, "refuted", inputs=vals)
+        ok, detail = replay_native(ob_fn, probe)
+        if ok:
+            return vals, detail
+    return None, ""
